@@ -103,18 +103,32 @@ Definition touch_default (d : ds) : ds :=
 Definition iadd (s : store) (c : cid) (ts : list triple) : store :=
   fold_left (fun s t => st_add s t (Some c)) ts s.
 
-(* ConjunctiveGraph._graph *)
-Definition cg_graph (d : ds) (oa : option garg) : ds * option cid :=
+(* ConjunctiveGraph._graph(c, copy), as repaired by the "fix:" commit for F19:
+   a Graph object is resolved to the same-store graph of its name (get_graph
+   walks self.contexts(), which for a Dataset re-creates the default graph);
+   its triples are copied in only [if copy and c.store is not self.store] *)
+Definition cg_graph (d : ds) (oa : option garg) (copy : bool) : ds * option cid :=
   match oa with
   | None => (d, None)
   | Some (GId c) => (d, Some c)                       (* get_context: no write *)
+  | Some (GView c) => (touch_default d, Some c)
+  | Some (GForeign c ts) =>
+      let d1 := touch_default d in
+      (if copy then set_st d1 (iadd (st d1) c ts) else d1, Some c)
+  end.
+
+(* the historical _graph (finding F19, repaired): every Graph object was
+   __iadd__-ed into the same-store graph, on read paths too *)
+Definition cg_graph_hist (d : ds) (oa : option garg) : ds * option cid :=
+  match oa with
+  | None => (d, None)
+  | Some (GId c) => (d, Some c)
   | Some (GView c) =>
-      (* get_graph walks self.contexts(); then _graph.__iadd__(c) re-adds c's own triples *)
       let d1 := touch_default d in
       (set_st d1 (iadd (st d1) c (graph_triples (st d1) c)), Some c)
   | Some (GForeign c ts) =>
       let d1 := touch_default d in
-      (set_st d1 (iadd (st d1) c ts), Some c)         (* copies the foreign triples into this store *)
+      (set_st d1 (iadd (st d1) c ts), Some c)
   end.
 
 (* ConjunctiveGraph._spoc, as repaired by the "fix:" commit for F18: a quad
@@ -122,7 +136,7 @@ Definition cg_graph (d : ds) (oa : option garg) : ds * option cid :=
 Definition cg_spoc (d : ds) (ca : ctxarg) (dflt : bool) : ds * option cid :=
   match ca with
   | CTriple => (d, if dflt then Some 0%N else None)
-  | CQuad oa => let (d1, c) := cg_graph d oa in
+  | CQuad oa => let (d1, c) := cg_graph d oa dflt in    (* _graph(c, copy=default): only add copies *)
                 (d1, match c with None => if dflt then Some 0%N else None | Some _ => c end)
   end.
 
@@ -132,7 +146,7 @@ Definition cg_spoc (d : ds) (ca : ctxarg) (dflt : bool) : ds * option cid :=
 Definition cg_spoc_hist (d : ds) (ca : ctxarg) (dflt : bool) : ds * option cid :=
   match ca with
   | CTriple => (d, if dflt then Some 0%N else None)
-  | CQuad oa => cg_graph d oa
+  | CQuad oa => cg_graph d oa dflt
   end.
 
 Definition cg_add (d : ds) (t : triple) (ca : ctxarg) : ds :=
@@ -142,7 +156,7 @@ Definition cg_add_hist (d : ds) (t : triple) (ca : ctxarg) : ds :=
 
 (* addN: Store.addN adds quad by quad while the generator calls _graph *)
 Definition cg_addN (d : ds) (l : list (triple * garg)) : ds :=
-  fold_left (fun d x => let (d1, c) := cg_graph d (Some (snd x)) in set_st d1 (st_add (st d1) (fst x) c)) l d.
+  fold_left (fun d x => let (d1, c) := cg_graph d (Some (snd x)) true in set_st d1 (st_add (st d1) (fst x) c)) l d.
 
 Definition cg_remove (d : ds) (p : pat) (ca : ctxarg) : ds :=
   let (d1, c) := cg_spoc d ca false in set_st d1 (st_remove (st d1) p c).
@@ -154,7 +168,7 @@ Definition ds_graph (d : ds) (oa : option garg) : ds :=
   match oa with
   | None => (* mints a skolem IRI (bind "genid" touches prefixes only) *)
       {| st := st_add_graph (st d) (FRESH_BASE + fresh d); is_ds := is_ds d; fresh := N.succ (fresh d) |}
-  | Some a => let (d1, c) := cg_graph d (Some a) in
+  | Some a => let (d1, c) := cg_graph d (Some a) true in
               match c with Some c' => set_st d1 (st_add_graph (st d1) c') | None => d1 end
   end.
 
@@ -183,7 +197,7 @@ Definition du_dispatch (du : bool) (ctx : option cid) : option cid :=
    "fix:" commit for F1: context if context is not None else c *)
 Definition cg_triples (d : ds) (p : pat) (ca : ctxarg) (kw : option garg) (du : bool) : ds * list triple :=
   let (d1, c) := cg_spoc d ca false in
-  let (d2, ctx) := cg_graph d1 (match kw with Some a => Some a | None => regraph c end) in
+  let (d2, ctx) := cg_graph d1 (match kw with Some a => Some a | None => regraph c end) false in
   (d2, map fst (st_triples (st d2) p (du_dispatch du ctx))).
 
 Definition is_nil {A} (l : list A) : bool := match l with [] => true | _ => false end.
@@ -225,7 +239,7 @@ Definition truthy (d : ds) (a : garg) : bool :=
 Definition cg_triples_hist (d : ds) (p : pat) (ca : ctxarg) (kw : option garg) (du : bool) : ds * list triple :=
   let (d1, c) := cg_spoc d ca false in
   let pick := match kw with Some a => if truthy d1 a then Some a else regraph c | None => regraph c end in
-  let (d2, ctx) := cg_graph d1 pick in
+  let (d2, ctx) := cg_graph d1 pick false in
   (d2, map fst (st_triples (st d2) p (du_dispatch du ctx))).
 
 (* ------------------------------------------------------------------ *)
@@ -333,7 +347,7 @@ Definition sp_init : dspec := {| sq := []; sk := [0%N]; sf := 0 |}.
 Definition arg_content (a : garg) : list triple :=
   match a with GForeign _ ts => ts | _ => [] end.
 
-(* a Graph object given to a write operation is merged into the graph of its name *)
+(* a Graph object given to add / addN / graph() is merged into the graph of its name *)
 Definition sp_merge (sp : dspec) (a : garg) : dspec :=
   match arg_content a with
   | [] => sp
@@ -350,6 +364,13 @@ Definition sp_target (sp : dspec) (ca : ctxarg) : dspec * option cid :=
 Definition sp_add (sp : dspec) (t : triple) (c : cid) : dspec :=
   {| sq := q_add (t, c) (sq sp); sk := sadd N.eqb c (sk sp); sf := sf sp |}.
 
+(* the graph a read is restricted to: the keyword wins over the 4th component *)
+Definition eff_graph (ca : ctxarg) (kw : option garg) : option cid :=
+  match kw with
+  | Some a => Some (arg_name a)
+  | None => match ca with CQuad (Some a) => Some (arg_name a) | _ => None end
+  end.
+
 Definition is_read (o : op) : bool :=
   match o with OTriples _ _ _ _ | OQuads _ _ | OContains _ _ _ => true | _ => false end.
 
@@ -361,9 +382,9 @@ Definition sp_step (sp : dspec) (o : op) : dspec :=
       sp_add sp1 t (match oc with Some c => c | None => 0%N end)
   | OAddN l => fold_left (fun sp x => sp_add (sp_merge sp (snd x)) (fst x) (arg_name (snd x))) l sp
   | ORemove p ca =>
-      (* no graph given: from every graph; otherwise from that graph only *)
-      let (sp1, oc) := sp_target sp ca in
-      {| sq := q_remove p oc (sq sp1); sk := sk sp1; sf := sf sp1 |}
+      (* no graph given: from every graph; otherwise from that graph only
+         (a Graph object merely names the graph here: nothing is merged) *)
+      {| sq := q_remove p (eff_graph ca None) (sq sp); sk := sk sp; sf := sf sp |}
   | OGraph None => {| sq := sq sp; sk := sadd N.eqb (FRESH_BASE + sf sp) (sk sp); sf := N.succ (sf sp) |}
   | OGraph (Some a) =>
       let sp1 := sp_merge sp a in
@@ -380,13 +401,6 @@ Definition sp_step (sp : dspec) (o : op) : dspec :=
 
 Definition sp_graph (sp : dspec) (c : cid) (p : pat) : list triple := q_triples p c (sq sp).
 Definition sp_union (sp : dspec) (p : pat) : list triple := filter (matches p) (all_triples (sq sp)).
-
-(* the graph a read is restricted to: the keyword wins over the 4th component *)
-Definition eff_graph (ca : ctxarg) (kw : option garg) : option cid :=
-  match kw with
-  | Some a => Some (arg_name a)
-  | None => match ca with CQuad (Some a) => Some (arg_name a) | _ => None end
-  end.
 
 (* with default_union the default graph IS the merged view *)
 Definition sp_triples (sp : dspec) (p : pat) (g : option cid) (du : bool) : list triple :=
@@ -440,18 +454,7 @@ Fixpoint spec_run (c : case) (sp : dspec) (ops : list op) (o : obs) : bool :=
 Definition spec_ok (c : case) (o : obs) : bool := spec_run c sp_init (c_ops c) o.
 
 (* ------------------------------------------------------------------ *)
-(* Well-formed cases: a graph object backed by ANOTHER store is given to write
-   operations only (reads that receive one are property C13's business). *)
 Definition foreign (a : garg) : bool := match a with GForeign _ _ => true | _ => false end.
-Definition ca_foreign (ca : ctxarg) : bool :=
-  match ca with CQuad (Some a) => foreign a | _ => false end.
-Definition op_wf (o : op) : bool :=
-  match o with
-  | OTriples _ ca kw _ => negb (ca_foreign ca) && negb (match kw with Some a => foreign a | None => false end)
-  | OQuads _ ca | OContains _ ca _ => negb (ca_foreign ca)
-  | _ => true
-  end.
-Definition wf (c : case) : Prop := forallb op_wf (c_ops c) = true.
 
 (* ------------------------------------------------------------------ *)
 (* Known-finding trigger.
